@@ -375,10 +375,28 @@ def tr_index():
 TRANSLATORS = [('ThreadProg.v', tr_threadprog), ('Consts.v', tr_consts), ('Preds.v', tr_preds), ('Index.v', tr_index)]
 
 
+FAILED = {}
+
+
 def regenerate():
+    """Regenerates every fragment. A translator that meets an unsupported construct does not stop the
+    others: its fragment is removed (so the tie file that needs it cannot be built from a stale copy)
+    and the failure is recorded in FAILED for the properties that depend on it."""
     changed = []
+    FAILED.clear()
     for name, fn in TRANSLATORS:
-        if write_if_changed(name, fn()):
+        try:
+            text = fn()
+        except Exception as e:   # noqa
+            FAILED[name[:-2]] = '%s: %s' % (type(e).__name__, e)
+            path = os.path.join(GEN, name)
+            if os.path.exists(path):
+                os.remove(path)
+            for ext in ('.vo', '.vos', '.vok', '.glob'):
+                if os.path.exists(path[:-2] + ext):
+                    os.remove(path[:-2] + ext)
+            continue
+        if write_if_changed(name, text):
             changed.append(name)
     return changed
 
